@@ -122,10 +122,17 @@ def to_cvc5(smt2):
 
 
 def _z3(smt2, timeout_s, out):
+    timer = None
     try:
         ctx = z3.Context()
         s = z3.Solver(ctx=ctx)
         s.set('timeout', int(timeout_s * 1000))
+        # z3's own timeout is not honoured in every phase (a query was seen spinning for 27 CPU minutes in the sequence
+        # rewriter): a watchdog thread cancels the context a little after the budget; the answer is then `unknown`
+        import threading
+        timer = threading.Timer(timeout_s + 3, ctx.interrupt)
+        timer.daemon = True
+        timer.start()
         s.from_string(smt2)
         r = s.check()
         out['result'] = str(r)
@@ -141,6 +148,9 @@ def _z3(smt2, timeout_s, out):
     except Exception as e:      # parser/solver failure is 'unknown', never a verdict
         out['result'] = 'unknown'
         out['reason'] = 'z3 error: %s' % e
+    finally:
+        if timer is not None:
+            timer.cancel()
 
 
 def _cvc5(smt2, timeout_s, out):
@@ -269,7 +279,16 @@ def get_model(axioms, ob, timeout_s=20):
     for c in ob.pc:
         s.add(c)
     s.add(z3.Not(ob.goal))
-    r = s.check()
+    import threading
+    wd = threading.Timer(timeout_s + 5, z3.main_ctx().interrupt)
+    wd.daemon = True
+    wd.start()
+    try:
+        r = s.check()
+    except z3.Z3Exception:
+        return None
+    finally:
+        wd.cancel()
     if r == z3.sat:
         return s.model()
     return None
